@@ -121,6 +121,8 @@ def run(cx):
     cx.extra["boards"] = {p: len(b) for p, b in plats.items()}
 
     rule_validate(cx, m, "C13-VALIDATE")
+    from . import c12
+    c12.rule_params_unchanged(cx, "C13-TARGET", mod("__init__.py"))
     # the project writer keeps no state between calls: a module-level list that grows would leak one project's libraries
     # into the next
     from . import c10
